@@ -746,4 +746,17 @@ example : GoodConsts (K := ℚ)
       c100 := 100, c10 := 10 } (fun x => x) :=
   ⟨by norm_num, by norm_num, fun x hx => ne_of_gt hx⟩
 
+/-- the identity preconditioner: `scale_data` and `unscale_data` are the identity function, and every `scale_*`/`unscale_*`
+    map returns its argument — the change of variables is trivially exact -/
+theorem identity_kind_is_identity {K : Type} [Add K] [Sub K] [Mul K] [Div K] [Neg K] [Zero K] [One K] [LT K] [DecidableLT K] [NatCast K]
+    {n p m : Nat} (sqrtF : K → K) (cs : Consts K) (d : Data K n p m) (pre : Precond K n p m) (reuse sc : Bool) (it : Nat) :
+    pre.scaleData .identity sqrtF cs d reuse sc it = (d, pre) ∧ pre.unscaleData .identity d = d ∧
+    (∀ v, pre.unscalePrimal .identity v = v) ∧ (∀ v, pre.scalePrimal .identity v = v) ∧
+    (∀ v, pre.unscaleDualEq .identity v = v) ∧ (∀ v, pre.unscaleDualIneq .identity v = v) ∧
+    (∀ v, pre.unscaleDualLb .identity v = v) ∧ (∀ v, pre.unscaleDualUb .identity v = v) ∧
+    (∀ v, pre.unscaleSlackIneq .identity v = v) ∧ (∀ v, pre.unscaleSlackLb .identity v = v) ∧ (∀ v, pre.unscaleSlackUb .identity v = v) ∧
+    (∀ v, pre.unscaleCost .identity v = v) :=
+  ⟨rfl, rfl, fun _ => rfl, fun _ => rfl, fun _ => rfl, fun _ => rfl, fun _ => rfl, fun _ => rfl, fun _ => rfl, fun _ => rfl,
+   fun _ => rfl, fun _ => rfl⟩
+
 end Piqp.C15
